@@ -160,6 +160,25 @@ Proof.
     rewrite (classify_indep sh a (Some b) _ None Hn), Ha, IH. reflexivity.
 Qed.
 
+(** the same step in front of any text [K] whose first byte is the expected follower *)
+Lemma body_step_gen sh c o K t rest :
+  pair_ok sh c o = true -> shd K = follower sh o ->
+  read_body sh K = Some (t, rest) ->
+  read_body sh (append (imgc sh c) K) = Some (String c t, rest).
+Proof.
+  intros Hp HK IH. unfold pair_ok in Hp.
+  destruct (follower sh o) as [nx|] eqn:Hf; [|discriminate].
+  destruct (imgc sh c) as [|a [|b [|? ?]]]; try discriminate.
+  + apply andb_prop in Hp. destruct Hp as [Ha Hn]. apply negb_true_iff in Hn.
+    apply action_eqb_eq in Ha.
+    cbn [append read_body]. rewrite HK.
+    rewrite (classify_indep sh a (Some nx) _ None Hn), Ha, IH. reflexivity.
+  + apply andb_prop in Hp. destruct Hp as [Ha Hn]. apply negb_true_iff in Hn.
+    apply action_eqb_eq in Ha.
+    cbn [append read_body shd stl].
+    rewrite (classify_indep sh a (Some b) _ None Hn), Ha, IH. reflexivity.
+Qed.
+
 Lemma body_rt sh :
   (forall c o, hazard sh c o = false -> pair_ok sh c o = true) ->
   forall s rest, admissibleb sh s = true -> safe sh rest = true ->
